@@ -164,6 +164,21 @@ CLAIMED = {
         "note": "mput/mget examined with nvars >= 1; nprocs > 1 on the collective zero-length branch.",
         "design_ref": "DESIGN.md section 3 / C15",
     },
+    "C07": {
+        "technique": "paired-update typestate rules (abstract interpretation over clang CFGs), argument-identity rules on "
+                     "every lookup-table call site, dominance / ordering rule on the bucket compaction, taint-free "
+                     "name-normalisation rule",
+        "text": "Decides seven structural necessary conditions of 'lookup by name agrees with lookup by id and changes "
+                "persist': every lookup-table call passes buckets and bucket count of the same object; each of the 8 "
+                "metadata mutators changes an object array together with its name table on every successful path; "
+                "the bucket compaction in ncmpio_hash_delete runs over the current length; the dispatcher's mirrors "
+                "change only after driver success; user names are UTF-8 normalised before lookup/insert in the 13 "
+                "name-taking driver entries; ncmpio_copy_att tests the mode of and rewrites the header of the "
+                "destination file; data-mode rename/put_att/copy_att pass through ncmpio_write_header on every "
+                "successful changing path. Hash arithmetic, id renumbering and value conversion are not decided.",
+        "note": "MPI calls and allocations succeed; object kinds identified by clang record identity.",
+        "design_ref": "DESIGN.md section 3 / C07",
+    },
 }
 
 NA_REASON = {
